@@ -1053,11 +1053,15 @@ RULE = (
     "and partial boundary / fill_value / to / metric_weighted dicts, periodic list, coords, metrics, "
     "face_connections), 1-2 Grids and GridUFunc objects; then executes a history of 2-3 (thorough: 2-5) operations "
     "drawn from Grid(), diff/interp/min/max (scalar, vector, multi-axis), cumsum, derivative, integrate, average, "
-    "cumint, metric_weighted ops, get_metric, interp_like, diff_2d_vector/interp_2d_vector, apply_as_grid_ufunc, an "
-    "as_grid_ufunc object, padding.pad and transform (3 methods, numba stand-in), arguments referenced by world "
-    "index so objects are shared across steps. Faults: ill-posed edit of a valid call, raising user function, "
-    "InjectedFault(BaseException) raised by a sys.settrace hook at line event k = 1+frac*(T-1) inside xgcm/*.py "
-    "(T = line events of the same op in its fresh run). After every step: world snapshot == pristine snapshot "
+    "cumint, metric_weighted ops (mapping values spelled as str / list / tuple), get_metric, interp_like, "
+    "diff_2d_vector/interp_2d_vector, apply_as_grid_ufunc, as_grid_ufunc objects (incl. mapping-valued bound options, "
+    "called along axes other than the dummy name), padding.pad, transform (3 methods, numba stand-in) and set_metrics "
+    "calls that must be refused (unknown variable / axis), arguments referenced by world index so objects are shared "
+    "across steps; dataset variables and index coordinates carry attributes, some arrays are anonymous, face tables "
+    "are partly sparse and may lack a third grid axis. Faults: ill-posed edit of a valid call, raising user function, "
+    "InjectedFault(BaseException) raised by a sys.settrace hook at a line event inside xgcm/*.py - uniformly in 1..T "
+    "(T = line events of the same op in its fresh run) or, when the fresh counting run saw the world transiently "
+    "modified at some line events, at one of those with probability 0.8. After every step: world snapshot == pristine snapshot "
     "(values, dtype, dims, name, attrs, coords, mapping key order and value identity, Grid settings and registry, "
     "GridUFunc options); outcome == outcome of the same op issued first on a fresh world. Non-trivial = some world "
     "object is referenced by two steps, or a fault is present. Distinct = digest of (world kind, per-step op name, "
